@@ -4,7 +4,9 @@
      singles : every well-formed conflict over the path / file-id universe, alone in a list, x every selection of at
                most two paths (including the root) x recurse
      lists   : every list of 2..MaxList conflicts from a mixed universe of twelve x a few selections
-     mm      : every assignment of {none, current hash, stale hash} to two versioned files and one unversioned file *)
+     mm      : every ORDERED selection of the three versioned files (Full: and the unversioned one), each recorded
+               with its current hash and then left alone / un-versioned / modified, or recorded with a stale hash:
+               stale records in first, middle and last position of the merge-hashes file *)
 EXTENDS Conflicts, TLC, Json, IOUtils
 CONSTANTS MaxList,      \* longest conflict list
           Full          \* TRUE: all singles; FALSE: singles restricted to two paths and file ids {none, id of a}
@@ -37,7 +39,22 @@ SelCases ==
     \cup {[kind |-> "sel", list |-> l, tree |-> Tree, paths |-> s, recurse |-> r] :
         l \in UNION {[1..n -> Mixed] : n \in 2..MaxList}, s \in ListSelections, r \in BOOLEAN}
     \cup {[kind |-> "sel", list |-> <<>>, tree |-> Tree, paths |-> <<A>>, recurse |-> FALSE]}
-MmCases == {[kind |-> "mm", set |-> s, versioned |-> <<"a", "da">>] : s \in [{"a", "da", "e"} -> {None, "cur", "old"}]}
+MmVersioned == <<"a", "da", "dda">>
+MmNames == <<"a", "da", "dda", "e">>
+MmStates(n) == IF n = "e" THEN {[hash |-> "cur", after |-> "same"]}            \* never versioned: not even recorded
+               ELSE {[hash |-> "cur", after |-> "same"], [hash |-> "cur", after |-> "unv"],
+                     [hash |-> "cur", after |-> "mod"], [hash |-> "old", after |-> "same"]}
+MmOrders == {o \in UNION {[1..k -> (IF Full THEN Range(MmNames) ELSE Range(MmVersioned))] : k \in 0..4} :
+                \A i, j \in DOMAIN o : i # j => o[i] # o[j]}
+RECURSIVE MmRecs(_)
+MmRecs(o) == IF o = <<>> THEN {<<>>}
+             ELSE {<<[name |-> Head(o), hash |-> st.hash, after |-> st.after]>> \o t : st \in MmStates(Head(o)), t \in MmRecs(Tail(o))}
+MmCases == {[kind |-> "mm", recs |-> r, versioned |-> MmVersioned, names |-> MmNames] : r \in UNION {MmRecs(o) : o \in MmOrders}}
+\* a stale record (un-versioned / modified / wrong hash) in front of, between, and behind live records
+StaleAt(x, i) == ~Live(x, x.recs[i])
+ASSUME \E x \in MmCases : Len(x.recs) = 3 /\ StaleAt(x, 1) /\ x.recs[1].after = "unv" /\ Live(x, x.recs[2]) /\ Live(x, x.recs[3])
+ASSUME \E x \in MmCases : Len(x.recs) = 3 /\ Live(x, x.recs[1]) /\ StaleAt(x, 2) /\ Live(x, x.recs[3])
+ASSUME \E x \in MmCases : Len(x.recs) = 3 /\ Live(x, x.recs[1]) /\ Live(x, x.recs[2]) /\ StaleAt(x, 3)
 VARIABLE c
 Init == c \in SelCases \/ c \in MmCases
 Next == UNCHANGED c
